@@ -504,3 +504,180 @@ Theorem rgb565_carried_num_cols_defect :
   rows565 true false 1 false 2 3 img buf [0; 8] 3 0 =
     [1; 248; 65; 8; 225; 7; 238; 238; 65; 8; 31; 0; 65; 8; 238; 238; 238; 238].
 Proof. cbv zeta. split; vm_compute; reflexivity. Qed.
+
+(* ------------------------------------------------------------------ YCCK -> CMYK rows: frame and read-back *)
+Lemma put4_spec buf op t : 0 <= op -> op + 4 <= Z.of_nat (length buf) ->
+  length (put4 buf op t) = length buf /\
+  (forall j, 0 <= j -> (j < op \/ op + 4 <= j) -> rd (put4 buf op t) j = rd buf j) /\
+  get4 (put4 buf op t) op = t.
+Proof.
+  intros Hop Hlen. destruct t as [[[a b] c] k]. unfold put4, get4.
+  change (z5 ycck_out_offsets 0) with 0. change (z5 ycck_out_offsets 1) with 1. change (z5 ycck_out_offsets 2) with 2.
+  change ycck_out_k with 3. rewrite Z.add_0_r.
+  split; [now rewrite !length_upd|]. split.
+  - intros j Hj Ho. rewrite !rd_upd_other by lia. reflexivity.
+  - f_equal; [f_equal; [f_equal|]|].
+    + rewrite !rd_upd_other by lia. apply rd_upd_same. lia.
+    + rewrite !rd_upd_other by lia. apply rd_upd_same. rewrite !length_upd. lia.
+    + rewrite !rd_upd_other by lia. apply rd_upd_same. rewrite !length_upd. lia.
+    + apply rd_upd_same. rewrite !length_upd. lia.
+Qed.
+
+Lemma get4_cols_ext b1 b2 : forall n ip, (forall j, ip <= j < ip + 4 * Z.of_nat n -> rd b1 j = rd b2 j) ->
+  get4_cols b1 ip n = get4_cols b2 ip n.
+Proof.
+  induction n; intros ip H; [reflexivity|]. cbn [get4_cols]. f_equal.
+  - unfold get4. rewrite !H by lia. reflexivity.
+  - apply IHn. intros j Hj. apply H. lia.
+Qed.
+
+Lemma put4_cols_spec : forall px buf op, 0 <= op -> op + 4 * Z.of_nat (length px) <= Z.of_nat (length buf) ->
+  let out := put4_cols px buf op in
+  length out = length buf /\
+  (forall j, 0 <= j -> (j < op \/ op + 4 * Z.of_nat (length px) <= j) -> rd out j = rd buf j) /\
+  get4_cols out op (length px) = px.
+Proof.
+  induction px as [|t r IH]; intros buf op Hop Hlen.
+  - cbn. repeat split; auto.
+  - cbn [put4_cols length] in *. rewrite Nat2Z.inj_succ in Hlen. change ycck_out_pixelsize with 4.
+    destruct (put4_spec buf op t Hop ltac:(lia)) as (Q1 & Q2 & Q3).
+    destruct (IH (put4 buf op t) (op + 4)) as (I1 & I2 & I3); [lia | rewrite Q1; lia |].
+    cbv zeta. repeat split.
+    + now rewrite I1.
+    + intros j Hj Ho. rewrite I2 by lia. apply Q2; lia.
+    + cbn [get4_cols]. f_equal; [|exact I3].
+      transitivity (get4 (put4 buf op t) op); [unfold get4; rewrite !I2 by lia; reflexivity | exact Q3].
+Qed.
+
+Theorem ycck_cmyk_rows w : forall p (img : list (list px4)) buf ptrs,
+  length img = length ptrs -> Forall (fun row => length row = w) img ->
+  in_bounds (4 * Z.of_nat w) (length buf) ptrs -> separated (4 * Z.of_nat w) ptrs ->
+  let out := ycck_cmyk_convert p img buf ptrs in
+  length out = length buf /\
+  (forall j, 0 <= j -> outside_rows (4 * Z.of_nat w) ptrs j -> rd out j = rd buf j) /\
+  unpack4 out ptrs w = map (map (ycck_cmyk_pixel p)) img.
+Proof.
+  intros p img0 buf ptrs Hlen0 Hw0 Hin Hsep. cbv zeta. unfold ycck_cmyk_convert.
+  set (img := map (map (ycck_cmyk_pixel p)) img0).
+  assert (Hlen : length img = length ptrs) by (unfold img; now rewrite map_length).
+  assert (Hw : Forall (fun row => length row = w) img).
+  { unfold img. apply Forall_map. eapply Forall_impl; [|exact Hw0]. cbv beta. intros. now rewrite map_length. }
+  clearbody img. clear Hlen0 Hw0 img0.
+  set (g := fun (row : list px4) (b : list Z) (op : Z) => if Nat.eqb (length row) w then put4_cols row b op else b).
+  assert (E : forall img' buf' ptrs', Forall (fun row => length row = w) img' ->
+            write_rows g img' buf' ptrs' = write_rows put4_cols img' buf' ptrs').
+  { induction img' as [|r ri IH]; intros buf' [|o rp] HF; try reflexivity.
+    inversion HF; subst. cbn [write_rows]. unfold g at 2. rewrite Nat.eqb_refl. now apply IH. }
+  set (okrow := fun (row : list px4) (got : list px4) => length row = w -> got = row).
+  pose proof (write_rows_spec g (fun b op => get4_cols b op w) (4 * Z.of_nat w) okrow) as G.
+  assert (HA : forall row b op, 0 <= op -> op + 4 * Z.of_nat w <= Z.of_nat (length b) ->
+     length (g row b op) = length b /\
+     (forall j, 0 <= j -> (j < op \/ op + 4 * Z.of_nat w <= j) -> rd (g row b op) j = rd b j) /\
+     okrow row (get4_cols (g row b op) op w)).
+  { intros row b op Hop Hopd. unfold g, okrow. destruct (Nat.eqb (length row) w) eqn:Ew.
+    - apply Nat.eqb_eq in Ew. pose proof (put4_cols_spec row b op Hop) as P. cbv zeta in P. rewrite Ew in P.
+      destruct (P Hopd) as (P1 & P2 & P3). auto.
+    - split; [reflexivity|]. split; [reflexivity|]. intro Hc. apply Nat.eqb_neq in Ew. contradiction. }
+  assert (HB : forall b1 b2 op, 0 <= op -> (forall j, op <= j < op + 4 * Z.of_nat w -> rd b1 j = rd b2 j) ->
+     get4_cols b1 op w = get4_cols b2 op w) by (intros; now apply get4_cols_ext).
+  destruct (G HA HB img buf ptrs Hlen Hin Hsep) as (G1 & G2 & G3).
+  rewrite E in * by assumption.
+  set (out := write_rows put4_cols img buf ptrs) in *. clearbody out. repeat split; auto.
+  unfold unpack4. clear - G3 Hw. induction G3 as [|x y l l' H G3 IH]; [reflexivity|].
+  inversion Hw as [|? ? Hx Hl]. cbn [map]. f_equal; [|apply IH; exact Hl]. exact (H Hx).
+Qed.
+
+(* ------------------------------------------------------------------ jdmrg565.c: no per-row state, no alignment branch; frame *)
+Lemma write_two_frame buf op v : length (write_two false buf op v) = length buf /\
+  forall j, 0 <= j -> (j < op \/ op + 4 <= j) -> rd (write_two false buf op v) j = rd buf j.
+Proof.
+  unfold write_two. split; [now rewrite !length_store16|].
+  intros j Hj Ho. rewrite !store16_frame by lia. reflexivity.
+Qed.
+
+Lemma m565_pairs_frame dith : forall n ys cbs crs buf op d,
+  let '(_, _, _, buf', op', _) := m565_pairs false dith n ys cbs crs buf op d in
+  op' = op + 4 * Z.of_nat n /\ length buf' = length buf /\
+  forall j, 0 <= j -> (j < op \/ op + 4 * Z.of_nat n <= j) -> rd buf' j = rd buf j.
+Proof.
+  induction n; intros ys cbs crs buf op d.
+  - cbn. repeat split; auto. lia.
+  - cbn [m565_pairs].
+    set (b1 := write_two false buf op _).
+    destruct (write_two_frame buf op
+                (pack_two false (pk false (mpx565 dith d (hd 0 ys) (chroma prec8 true (hd 0 cbs) (hd 0 crs))))
+                   (pk false (mpx565 dith (if dith then dither_rot d else d) (hd 0 (tl ys)) (chroma prec8 true (hd 0 cbs) (hd 0 crs))))))
+      as [W1 W2]. fold b1 in W1, W2.
+    specialize (IHn (tl (tl ys)) (tl cbs) (tl crs) b1 (op + 4)
+                    (if dith then dither_rot (if dith then dither_rot d else d) else (if dith then dither_rot d else d))).
+    destruct (m565_pairs false dith n (tl (tl ys)) (tl cbs) (tl crs) b1 (op + 4) _) as [[[[[a b] c] buf'] op'] d'].
+    destruct IHn as (I1 & I2 & I3). repeat split.
+    + lia.
+    + now rewrite I2.
+    + intros j Hj Ho. rewrite I3 by lia. apply W2; lia.
+Qed.
+
+Lemma m565_row_frame dith w ys cbs crs buf op d : 0 <= w ->
+  length (m565_row false dith w ys cbs crs buf op d) = length buf /\
+  forall j, 0 <= j -> (j < op \/ op + 2 * w <= j) -> rd (m565_row false dith w ys cbs crs buf op d) j = rd buf j.
+Proof.
+  intro Hw. unfold m565_row.
+  pose proof (m565_pairs_frame dith (Z.to_nat (Z.shiftr w 1)) ys cbs crs buf op d) as P.
+  destruct (m565_pairs false dith (Z.to_nat (Z.shiftr w 1)) ys cbs crs buf op d) as [[[[[a b] c] buf'] op'] d'].
+  destruct P as (P1 & P2 & P3).
+  assert (Hn : w = 2 * Z.of_nat (Z.to_nat (Z.shiftr w 1)) + (if Z.odd w then 1 else 0)).
+  { rewrite Z.shiftr_div_pow2 by lia. change (2 ^ 1) with 2. rewrite Z2Nat.id by (apply Z.div_pos; lia).
+    pose proof (Zdiv2_odd_eqn w) as E. rewrite Z.div2_div in E. destruct (Z.odd w); lia. }
+  destruct (Z.odd w).
+  - split; [rewrite length_store16; exact P2|]. intros j Hj Ho. rewrite store16_frame by lia. apply P3; lia.
+  - split; [exact P2|]. intros j Hj Ho. apply P3; lia.
+Qed.
+
+Lemma m565_rows_frame dith w : 0 <= w -> forall ys cbs crs buf ptrs scan,
+  length (m565_rows false dith w scan ys cbs crs buf ptrs) = length buf /\
+  forall j, 0 <= j -> outside_rows (2 * w) ptrs j -> rd (m565_rows false dith w scan ys cbs crs buf ptrs) j = rd buf j.
+Proof.
+  intro Hw. induction ys as [|y ty IH]; intros cbs crs buf ptrs scan; [cbn; auto|].
+  destruct cbs as [|cb tcb]; [cbn; auto|]. destruct crs as [|cr tcr]; [cbn; auto|]. destruct ptrs as [|op tp]; [cbn; auto|].
+  cbn [m565_rows].
+  destruct (m565_row_frame dith w y cb cr buf op (if dith then dither_row scan else 0) Hw) as [R1 R2].
+  destruct (IH tcb tcr (m565_row false dith w y cb cr buf op (if dith then dither_row scan else 0)) tp (scan + 1)) as [I1 I2].
+  split; [now rewrite I1|]. intros j Hj Ho. rewrite I2.
+  - apply R2; auto. apply Ho. now left.
+  - assumption.
+  - intros q Hq. apply Ho. now right.
+Qed.
+
+(* merged upsampling to RGB565, dithered or not, h2v1 or h2v2: the result is a function of the samples, the
+   pitch-derived row pointers and output_scanline only (there is no address/alignment input at all), the buffer
+   keeps its length and nothing outside the 2*w bytes of the rows is written *)
+Theorem merged565_frame dith v2 w scan ys cbs crs buf ptrs : 0 <= w ->
+  length (merged565 false dith v2 w scan ys cbs crs buf ptrs) = length buf /\
+  forall j, 0 <= j -> outside_rows (2 * w) ptrs j -> rd (merged565 false dith v2 w scan ys cbs crs buf ptrs) j = rd buf j.
+Proof. intro Hw. unfold merged565. destruct v2; now apply m565_rows_frame. Qed.
+
+(* ------------------------------------------------------------------ ordered dithering: what the output depends on *)
+(* one color_convert call takes d0 = dither_matrix[output_scanline & 3] ONCE and threads it through its rows *)
+Theorem dither565_call_state src base scan w img buf ptrs :
+  convert565 false src true base scan w img buf ptrs =
+  rows565 rgb565_numcols_reset_per_row false src true base w img buf ptrs w (nth (Z.to_nat (Z.land scan DITHER_MASK)) dither_matrix 0).
+Proof. reflexivity. Qed.
+
+(* ... hence the dithered image depends on how many scanlines one call converts: two rows in one call (both from the
+   dither row of scanline 0) differ from the same two rows converted by two calls (scanlines 0 and 1) ... *)
+Theorem dither565_depends_on_lines_per_call :
+  let img := [[(100, 110, 120); (101, 111, 121); (102, 112, 122); (103, 113, 123)];
+              [(100, 110, 120); (101, 111, 121); (102, 112, 122); (103, 113, 123)]] in
+  let buf := repeat 0 16 in
+  let one_call := convert565 false 1 true 0 0 4 img buf [0; 8] in
+  let two_calls := convert565 false 1 true 0 1 4 (tl img) (convert565 false 1 true 0 0 4 [hd [] img] buf [0]) [8] in
+  firstn 8 one_call = firstn 8 two_calls /\ one_call <> two_calls.
+Proof. cbv zeta. split; [vm_compute; reflexivity | vm_compute; discriminate]. Qed.
+
+(* ... and on the alignment of the row pointer: the alignment branch emits one pixel without rotating d0 *)
+Theorem dither565_depends_on_alignment :
+  let row := [[(100, 110, 120); (101, 111, 121); (102, 112, 122); (103, 113, 123)]] in
+  let buf := repeat 0 8 in
+  convert565 false 1 true 0 0 4 row buf [0] <> convert565 false 1 true 2 0 4 row buf [0] /\
+  convert565 false 1 false 0 0 4 row buf [0] = convert565 false 1 false 2 0 4 row buf [0].
+Proof. cbv zeta. split; [vm_compute; discriminate | vm_compute; reflexivity]. Qed.
